@@ -394,6 +394,21 @@ func (Engine) Shrink(planJSON json.RawMessage, last *sim.RunResult) []json.RawMe
 		q.Restarts = nil
 		emit(q)
 	}
+	for i := range p.WriteFail {
+		q := clone()
+		q.WriteFail = append(append([]WriteFault(nil), q.WriteFail[:i]...), q.WriteFail[i+1:]...)
+		emit(q)
+	}
+	if p.MergeFail {
+		q := clone()
+		q.MergeFail = false
+		emit(q)
+	}
+	if p.ImportFail > 0 {
+		q := clone()
+		q.ImportFail = 0
+		emit(q)
+	}
 	return out
 }
 
